@@ -75,7 +75,139 @@ async fn run_behaviour<const N: usize>(cfg: HCfg, beh: BehaviourJ, dir: std::pat
     Ok((out, log))
 }
 
+/// One execution of a behaviour with one injected fault, logged for TraceStore.
+/// Restart steps run with the fault disarmed (faults during start-up are C06 territory).
+async fn run_faulted<const N: usize>(cfg: HCfg, beh: BehaviourJ, dir: std::path::PathBuf, nkeys: u64,
+                                     rec: std::sync::Arc<tap::Recorder>, plan: tap::FaultPlan) -> Result<(Vec<serde_json::Value>, bool, bool), String> {
+    use std::sync::atomic::Ordering::SeqCst;
+    let _ = std::fs::remove_dir_all(&dir);
+    std::fs::create_dir_all(&dir).map_err(|e| e.to_string())?;
+    let mut d = Driver::<N>::new(cfg, dir.clone(), nkeys);
+    d.snapshots_on = true;
+    rec.set_fault(None);
+    d.open(false).await?;
+    let mut lines = vec![json!({"ev": "reset"})];
+    rec.set_fault(Some(plan.clone()));
+    let mut vid = 0u64;
+    let mut hit_any = false;
+    let mut snap_mm = Vec::new();
+    let mut steps = beh.steps.clone();
+    // the history ends with a restart, so that what the next session serves is compared too
+    steps.push(StepJ { act: ActJ { a: "restart".into(), k: 0, ts: 0, m: 0, f: 1, s: "keep".into() }, ret: res("ok", 0), obs: None });
+    let mut quarantined = false;
+    for st in steps.iter() {
+        if st.act.a == "write" || st.act.a == "delete" { vid += 1; }
+        let before = rec.fault_hits.load(SeqCst);
+        let restart = st.act.a == "restart";
+        if restart { rec.set_armed(false); }
+        let got = d.exec(&st.act, vid).await;
+        if restart { rec.set_armed(true); }
+        let got = match got {
+            Ok(g) => g,
+            Err(e) => {
+                // close / init failed although no fault was armed: reported by the caller
+                return Err(format!("{} failed: {}", st.act.a, e));
+            }
+        };
+        let hit = rec.fault_hits.load(SeqCst) > before;
+        hit_any |= hit;
+        let mode = if !hit { "normal" } else if got.t == "err" { "failed" } else { "degraded" };
+        d.check_snapshots(lines.len(), &st.act.a, &mut snap_mm);
+        let corrupted = d.storage.as_ref().map(|s| s.corrupted_blobs_count()).unwrap_or(0);
+        if corrupted > 0 { quarantined = true; }
+        // a blob quarantined after the fault is "preserved intact" (checked by the snapshots);
+        // its records are legitimately not served any more
+        let obs = if quarantined { None } else { Some(d.observe().await) };
+        lines.push(json!({"ev": "step", "a": st.act.a, "k": st.act.k, "ts": st.act.ts, "m": st.act.m, "f": st.act.f, "s": st.act.s,
+            "rt": got.t, "rn": got.n, "mode": mode, "has_obs": if obs.is_some() { 1 } else { 0 }, "obs": obs.unwrap_or(json!({"keys": [], "records": -1}))}));
+    }
+    let _ = d.shutdown(true).await;
+    let _ = std::fs::remove_dir_all(&dir);
+    for m in snap_mm {
+        println!("MISMATCH {}", json!({"cfg": d.cfg, "behaviour": beh, "mismatches": [m], "log": d.log, "sig": beh.steps.iter().map(|s| s.act.a.clone()).collect::<Vec<_>>(), "fault": format!("{:?}", plan)}));
+    }
+    Ok((lines, hit_any, quarantined))
+}
+
+fn fault_plans(dense: bool) -> Vec<tap::FaultPlan> {
+    let mut v = Vec::new();
+    let nths: Vec<u64> = if dense { (1..=8).collect() } else { vec![1, 2, 3, 5] };
+    for (op, kinds, hows) in [("create", vec!["blob", "index"], vec!["enospc"]), ("write", vec!["blob", "index"], vec!["eio", "short"]),
+                              ("write_at", vec!["index"], vec!["eio"]), ("sync", vec!["blob", "index"], vec!["eio"]), ("open", vec!["index"], vec!["eio"])] {
+        for kind in kinds.iter() {
+            for how in hows.iter() {
+                for nth in nths.iter() {
+                    v.push(tap::FaultPlan { op: op.to_string(), kind: kind.to_string(), nth: *nth, how: how.to_string(), short: 10 });
+                }
+            }
+        }
+    }
+    v
+}
+
+fn fault_main(cfg: HCfg, nkeys: u64, out_path: String) {
+    let rt = build_runtime(&cfg.rt);
+    let rec = tap::Recorder::new();
+    rec.enabled.store(false, std::sync::atomic::Ordering::SeqCst);
+    rec.install();
+    let plans = fault_plans(std::env::args().any(|a| a == "--dense"));
+    let root = scratch_root().join(format!("fault-{}", std::process::id()));
+    let mut w = std::io::BufWriter::new(std::fs::File::create(&out_path).expect("trace file"));
+    let stdin = std::io::stdin();
+    let (mut execs, mut hits, mut quar, mut errors) = (0u64, 0u64, 0u64, 0u64);
+    let mut by_plan: std::collections::BTreeMap<String, u64> = Default::default();
+    let mut sample = None;
+    for line in stdin.lock().lines() {
+        let line = match line { Ok(l) => l, Err(_) => break };
+        let text = match tlc_line_payload(&line, "BEHAVIOUR") { Some(t) => t, None => continue };
+        let beh: BehaviourJ = match serde_json::from_str(&text) { Ok(b) => b, Err(_) => continue };
+        for plan in plans.iter() {
+            let dir = root.join("b");
+            let (c2, b2, r2, p2) = (cfg.clone(), beh.clone(), rec.clone(), plan.clone());
+            let res = rt.block_on(async move {
+                tokio::spawn(async move {
+                    match c2.ks {
+                        8 => run_faulted::<8>(c2, b2, dir, nkeys, r2, p2).await,
+                        _ => run_faulted::<4>(c2, b2, dir, nkeys, r2, p2).await,
+                    }
+                }).await
+            });
+            let label = format!("{}:{}:{}", plan.op, plan.kind, plan.how);
+            match res {
+                Ok(Ok((lines, hit, q))) => {
+                    if !hit { continue; }          // the fault never fired: identical to the plain replay
+                    execs += 1; hits += 1;
+                    if q { quar += 1; }
+                    *by_plan.entry(label).or_default() += 1;
+                    if sample.is_none() { sample = Some(json!({"fault": format!("{:?}", plan), "steps": beh.steps.iter().map(|s| s.act.a.clone()).collect::<Vec<_>>()})); }
+                    use std::io::Write;
+                    for l in lines { let _ = writeln!(w, "{}", l); }
+                }
+                Ok(Err(e)) => {
+                    errors += 1;
+                    println!("MISMATCH {}", json!({"cfg": cfg, "behaviour": beh, "mismatches": [{"step": -1, "action": "?", "kind": "fault_error", "expected": "the storage keeps working after the fault cleared", "got": e}], "log": [], "sig": beh.steps.iter().map(|s| s.act.a.clone()).collect::<Vec<_>>(), "fault": format!("{:?}", plan)}));
+                    reset_probe_after_dead_worker();
+                }
+                Err(j) => {
+                    errors += 1;
+                    let msg = if j.is_panic() { let p = j.into_panic(); p.downcast_ref::<String>().cloned().or_else(|| p.downcast_ref::<&str>().map(|s| s.to_string())).unwrap_or("panic".into()) } else { "cancelled".into() };
+                    println!("MISMATCH {}", json!({"cfg": cfg, "behaviour": beh, "mismatches": [{"step": -1, "action": "?", "kind": "panic", "expected": "no panic", "got": msg}], "log": [], "sig": beh.steps.iter().map(|s| s.act.a.clone()).collect::<Vec<_>>(), "fault": format!("{:?}", plan)}));
+                    reset_probe_after_dead_worker();
+                }
+            }
+        }
+    }
+    let _ = std::fs::remove_dir_all(&root);
+    println!("RESULT {}", json!({"executed": execs, "fault_hits": hits, "quarantined": quar, "errors": errors, "by_plan": by_plan, "sample": sample,
+        "lines": 0, "distinct": execs, "steps": 0, "failed": errors, "tool_errors": 0}));
+}
+
 fn main() {
+    if let Some(out) = arg("--faults-out") {
+        let cfg: HCfg = serde_json::from_str(&arg("--cfg").unwrap_or("{}".into())).expect("cfg json");
+        let nkeys: u64 = arg("--nkeys").and_then(|s| s.parse().ok()).unwrap_or(2);
+        return fault_main(cfg, nkeys, out);
+    }
     let cfg: HCfg = serde_json::from_str(&arg("--cfg").unwrap_or("{}".into())).expect("cfg json");
     let nkeys: u64 = arg("--nkeys").and_then(|s| s.parse().ok()).unwrap_or(2);
     let (sp, sq): (u64, u64) = arg("--sample")
